@@ -571,7 +571,16 @@ func (c *ctx) subKeep(adj refmodel.Adj) {
 		c.fail("subgraph", "SubgraphKeep", "panic", "SubgraphKeep panicked: %v", simkitStr(pv))
 		return
 	}
-	c.checkSub("SubgraphKeep", sub, sg, nodes, wantOut, wantOld)
+	// the caller reuses its argument buffers once the call has returned: the
+	// subgraph must not depend on them any more
+	keptNodes := append([]int(nil), nodes...)
+	for i := range nodes {
+		nodes[i] = len(adj) - 1 - nodes[i]
+	}
+	for i := range edges {
+		edges[i] = graph.Edge{Node: -1, Edge: -1}
+	}
+	c.checkSub("SubgraphKeep", sub, sg, keptNodes, wantOut, wantOld)
 }
 
 func (c *ctx) subRemove(adj refmodel.Adj) {
@@ -624,6 +633,12 @@ func (c *ctx) subRemove(adj refmodel.Adj) {
 	if pv := c.try(func() { sub = graph.SubgraphRemove(sg, nodes, edges) }); pv != nil {
 		c.fail("subgraph", "SubgraphRemove", "panic", "SubgraphRemove panicked: %v", simkitStr(pv))
 		return
+	}
+	for i := range nodes {
+		nodes[i] = -7
+	}
+	for i := range edges {
+		edges[i] = graph.Edge{Node: -1, Edge: -1}
 	}
 	c.checkSub("SubgraphRemove", sub, sg, keep, wantOut, wantOld)
 }
